@@ -42,6 +42,7 @@ a_real a_pid_neuro_inc_(a_pid_neuro *ctx, a_real fdb, a_real err, a_real ec)
     ctx->wd += ctx->pid.kd * out * ctx->pid.var;
     out = A_ABS(ctx->wp) + A_ABS(ctx->wi) + A_ABS(ctx->wd);
     out = ctx->k * (ctx->wp * ec + ctx->wi * err + ctx->wd * var) / out;
+    out += ctx->pid.out; /* u(k) = u(k-1) + K * ... */
     ctx->pid.out = A_SAT(out, ctx->pid.outmin, ctx->pid.outmax);
     ctx->pid.var = var;
     ctx->pid.fdb = fdb;
